@@ -118,10 +118,14 @@ def OpenTxn (cfg : Cfg) (pre : List Ev) (snd : Bytes) (mid : List Ev) : Prop :=
 def SubmitOK (cfg : Cfg) (pre : List Ev) (sub : Submit) : Prop :=
   ∃ mid, OpenTxn cfg pre sub.sender mid ∧ sub.rcpts = mid.filterMap (acceptedRcpt cfg) ∧ sub.rcpts ≠ []
 
+/-- the length limit of the property: the address with its final NUL may not exceed 900 bytes.
+(A literal on purpose: the model's limit `Gen.ADDRMAX` is regenerated from the source.) -/
+def addrLimit : Nat := 900
+
 /-- C08 gating: a RCPT with argument `arg` arriving after `pre` may be answered 250 -/
 def GateOK (cfg : Cfg) (pre : List Ev) (arg : Bytes) : Prop :=
   ∃ snd mid adr, OpenTxn cfg pre snd mid ∧ ¬ BadSender cfg snd ∧ addrparse cfg arg = some adr ∧
-    (cfg.relay.isSome = true ∨ MatchSpec cfg adr)
+    adr.length + 1 ≤ addrLimit ∧ (cfg.relay.isSome = true ∨ MatchSpec cfg adr)
 
 /-- last element satisfying `p`, and everything after it -/
 def lastSeg {α : Type} (p : α → Bool) : List α → Option (α × List α)
@@ -148,7 +152,7 @@ def gateOKB (cfg : Cfg) (pre : List Ev) (arg : Bytes) : Bool :=
   | some (snd, _) =>
     !badSenderB cfg snd &&
     (match addrparse cfg arg with
-     | some adr => cfg.relay.isSome || matchSpecB cfg adr
+     | some adr => decide (adr.length + 1 ≤ addrLimit) && (cfg.relay.isSome || matchSpecB cfg adr)
      | none => false)
   | none => false
 
